@@ -957,6 +957,20 @@ func (c *glCtx) stmt0(s ast.Stmt) string {
 				return fmt.Sprintf("(.forIdx %s (.call1 \"asciiIndices\" %s)\n    %s)", leanStr(ki.Name), coll, body)
 			}
 		}
+		if s.Tok == token.DEFINE && c.typeOf(s.X) == "string" {
+			// for _, r := range <string>: the runes in order (any text)
+			ki, okk := s.Key.(*ast.Ident)
+			vi, okv := s.Value.(*ast.Ident)
+			if okk && okv && ki.Name == "_" && vi.Name != "_" {
+				coll := c.expr(s.X)
+				savedSw := c.inSwitch
+				c.inSwitch = 0
+				defer func() { c.inSwitch = savedSw }()
+				c.types[vi.Name] = "rune"
+				body := seqs([]string{fmt.Sprintf("(.bind %s (.call2 \"runeAt\" %s (.var \"_k\")))", leanStr(vi.Name), coll), c.block(s.Body.List)})
+				return fmt.Sprintf("(.forIdx \"_k\" (.call1 \"runeIndices\" %s)\n    %s)", coll, body)
+			}
+		}
 		if s.Tok == token.DEFINE || (s.Key == nil && s.Value == nil) {
 			coll := c.expr(s.X)
 			et := strings.TrimPrefix(c.typeOf(s.X), "[]")
@@ -1387,6 +1401,8 @@ func emitValidators(p *pkg, out string) {
 	// the comparison MergeFiles groups batches by
 	q.translate(p, "BatchHeader.Equal")
 	q.translate(p, "CalculateCheckDigit")
+	q.translate(p, "validator.isUpperASCII")
+	q.translate(p, "validator.isAlphanumeric")
 	for _, k := range q.order {
 		lf.pf("def %s : Prog :=\n  %s\n\n", glName(k), q.done[k])
 	}
